@@ -7,7 +7,11 @@ from ..sched import layers as LY
 
 LEVEL = 'exploration'
 
-DYADIC = [(None, None), (0, None), (8, None), (8, 3), (3, 8), (16, None)]
+from datetime import datetime
+# a leaf's flags and dates do not change what it lasts: a milestone with open work still lasts estimate - spent
+MS = {'milestone': True}
+DATED = {'start': datetime(2024, 1, 1), 'end': datetime(2024, 1, 2), 'min_start': datetime(2024, 3, 1), 'resource': 'r'}
+DYADIC = [(None, None), (0, None), (8, None), (8, 3), (3, 8), (16, None), (8, 3, MS), (16, None, MS), (8, None, DATED)]
 DECIMAL = [(0.1, None), (0.2, None), (0.3, None)]
 # ties in decimal arithmetic at a magnitude where one ulp exceeds 1e-9
 BIGDEC = [(10000000.1, None), (10000000.2, None), (20000000.3, None)]
@@ -75,9 +79,9 @@ _TIER = 'quick'
 
 def menus(tier, nleaves):
     if nleaves == 3:
-        return [[(None, None), (8, None), (8, 3), (16, None)] if tier == 'quick' else DYADIC, DECIMAL, BIGDEC]
+        return [[(None, None), (8, None), (8, 3), (16, None), (16, None, MS), (8, 3, DATED)] if tier == 'quick' else DYADIC, DECIMAL, BIGDEC]
     if nleaves >= 4:
-        return [[(0, None), (8, None), (8, 3), (16, None)], DECIMAL] if tier == 'thorough' else [[(8, None), (4, None), (12, None)]]
+        return [[(0, None), (8, None), (8, 3), (16, None, MS)], DECIMAL] if tier == 'thorough' else [[(8, None), (4, None), (12, None, MS)]]
     return [DYADIC, DECIMAL]
 
 
@@ -108,8 +112,9 @@ def _work(chunk):
             for combo in itertools.product(menu, repeat=len(lv)):
                 attrs = {}
                 durs = {}
-                for k, (e, s) in zip(lv, combo):
-                    a = {}
+                for k, ent in zip(lv, combo):
+                    e, s = ent[0], ent[1]
+                    a = dict(ent[2]) if len(ent) > 2 else {}
                     if e is not None:
                         a['estimate'] = e
                     if s is not None:
